@@ -459,8 +459,11 @@ def find_group_cohorts(
     # assumes that `labels` are factorized
     if expected_groups is None:
         nlabels = labels.max() + 1
-    else:
+    elif len(expected_groups) > 0:
         nlabels = expected_groups[-1] + 1
+    else:
+        # no label is present (all are missing): there is nothing to group, any plan will do
+        return "map-reduce", {}
 
     # 1. Single chunk, blockwise always
     if nchunks == 1:
